@@ -100,7 +100,7 @@ Section Lib.
   Fixpoint insert_by {A} (lt : A -> A -> bool) (x : A) (l : list A) : list A :=
     match l with
     | [] => [x]
-    | y :: r => if lt x y then x :: l else y :: insert_by lt x r
+    | y :: r => if lt y x then y :: insert_by lt x r else x :: l
     end.
   Definition stable_sort {A} (lt : A -> A -> bool) (l : list A) : list A :=
     fold_right (insert_by lt) [] l.
